@@ -14,11 +14,13 @@ private def op? : Sexp → Option MOp
   | .list [.atom "l", d] => do some (.leave (some (← d.nat?)))
   | .atom "g" => some .gosub
   | .atom "t" => some .gret
+  | .atom "e" => some .raise
+  | .atom "n" => some .resume
   | _ => none
 
 def handle (cmd : String) (args : List Sexp) : Option String :=
   match cmd, args with
-  -- (frames.depths (u|o|w|c|r|l|(l d)|g|t ...)) -> depth of register_stack before each instruction
+  -- (frames.depths (u|o|w|c|r|l|(l d)|g|t|e|n ...)) -> depth of register_stack before each instruction
   | "frames.depths", [.list ops] => do
       let ops ← ops.mapM op?
       pure ("(" ++ " ".intercalate ((depths MSt.init ops).map toString) ++ ")")
